@@ -70,7 +70,7 @@ func init() {
 			Run: func(P *Program, R *Report) {
 				fn := mustFunc(P, R, "C01.b", kProofDVerify)
 				mp(P, R, "C01.b", kProofDVerify+":challenge-roles", "accept => VerifyWithChallenge(pk, createChallenge(context, nonce1, contrib, issig)) is true and contrib is this proof's ChallengeContribution(pk)", fn, AcceptTrue(0),
-					&MustPass{NoInterproc: true, Match: func(a Atom) bool {
+					&MustPass{Match: func(a Atom) bool {
 						c, ok := callAtom(a, True, kProofDVWC)
 						if !ok || len(c.Call.Args) != 3 {
 							return false
